@@ -160,7 +160,8 @@ def cli_bytes(chk):
     em = asc - desc
     jobs = [("cbdt", [], 64), ("sbix", ["--nouse_zopflipng"], 64), ("cbdt", ["--nouse_pngquant"], 160)]
     if chk.tier != "quick":
-        jobs += [("cbdt", [], 32), ("sbix", [], 96), ("cbdt", [], 200), ("sbix", ["--nouse_pngquant"], 160)]
+        # (200 px with the default metrics puts the top at 158 px: beyond CBDT's 8-bit bearings, see below)
+        jobs += [("cbdt", [], 32), ("sbix", [], 96), ("cbdt", [], 120), ("sbix", ["--nouse_pngquant"], 160), ("cbdt", [], 200)]
     with common.scratch("c14-") as work:
         for n, (fmt, flags, res) in enumerate(jobs):
             sb = cli.Sandbox(work / f"{fmt}-{n}")
@@ -170,6 +171,13 @@ def cli_bytes(chk):
             chk.case(key=("cli", fmt, res, tuple(flags)), nontrivial=True)
             chk.traces_validated += 1
             replay = {"kind": "cli", "format": fmt, "flags": flags, "bitmap_resolution": res}
+            # what CBDT's small glyph metrics cannot hold (a bearing beyond int8) must be refused, not written
+            unrepresentable = fmt == "cbdt" and asc * round(upem * res / em) / upem > 127.5
+            if unrepresentable:
+                if rc == 0:
+                    chk.violation(f"CLI cbdt at {res} px: the top bearing ({asc * round(upem * res / em) / upem:.1f} px) does not fit "
+                                  f"the format, yet a font was written", replay)
+                continue
             if rc != 0:
                 chk.violation(f"CLI {fmt} build fails", dict(replay, log=out[-500:]))
                 continue
